@@ -403,6 +403,34 @@ def overlap_c09(rng, tag, n):
     return out
 
 
+def overlap_c12(rng, tag, n):
+    """two or three connections deliver accounting records at the same time: the first one's handler is parked inside the
+    sink (before its record is formatted) while the others run; acknowledged requests and sink records are compared as bags"""
+    cfg = base_cfg(rng, tag)
+    out = []
+    fileusers = ["alice", "bob", "frank", "judy", "ivan"]
+    for i in range(n):
+        u1 = rng.choice(fileusers)
+        others = [u1 if rng.random() < 0.7 else rng.choice(fileusers + ["carol", "nobody"]) for _ in range(rng.choice([1, 1, 2]))]
+
+        def rec(u, long):
+            nargs = rng.choice([3, 5, 8]) if long else rng.choice([0, 1, 2])
+            args = [list(("k%d=%s" % (j, rand_text(rng, rng.choice([8, 20]) if long else rng.choice([0, 3]), "plain"))).encode("latin1")) for j in range(nargs)]
+            return acct(u, rng.choice([2, 4, 8]), args, port=list(b"tty%d" % rng.randint(0, 9)), raddr=list(b"192.0.2.%d" % rng.randint(1, 250)))
+        # the held record is the longer one as often as not (an encoder reusing storage only shows with a shorter successor)
+        long1 = rng.random() < 0.7
+        a = session_steps(1, 0, [(rec(u1, long1), 0, [])])
+        a[0]["holdsink"] = True
+        steps = list(a)
+        conns = [{"c": 1, "addr": "10.1.0.5"}]
+        for k, u in enumerate(others):
+            c = 2 + k
+            conns.append({"c": c, "addr": "10.1.0.%d" % (6 + k)})
+            steps += session_steps(c, rng.choice([0, 1]), [(rec(u, not long1 and rng.random() < 0.5), 0, [])])
+        out.append({"id": "c12ov-%d" % i, "cfg": cfg, "conns": conns, "steps": steps, "iso": False, "log": False, "overlap": True})
+    return out
+
+
 def exhaustive_c09(rng, tag, limit):
     """all interleavings of small script pairs/triples on one connection"""
     cfg = base_cfg(rng, tag)
@@ -468,6 +496,8 @@ def collect(ctx, prop):
     if prop == "C09":
         scen += exhaustive_c09(rng, tag, 300 if quick else 6000)
         scen += overlap_c09(rng, tag, 150 if quick else 3000)
+    if prop == "C12":
+        scen += overlap_c12(rng, tag, 200 if quick else 4000)
     if prop == "C10":
         cfg0 = base_cfg(rng, tag)
         sw = start_sweep(cfg0, "s1", tag)
